@@ -23,15 +23,19 @@ def run(ctx):
         dis["lex"] = common.run_stream(ctx, "lex", lops[: 3000 * scale])
         dis["tok"] = common.run_stream(ctx, "tok", robust.tok_ops(ctx, 1500 * scale, bcs), cwd=wd)
     regress = robust.replay_findings(ctx, [])
-    n = ctx.pick(2500, 25000)
+    n = ctx.pick(1800, 18000)
     texts, kinds = robust.gen_texts(ctx, n)
+    gp = robust.gen_programs(ctx, ctx.pick(900, 9000))
+    kinds["grammar-programs"] = len(gp)
+    texts += gp
     failures, stats = robust.sweep(ctx, texts, [[], ["-i"]], {"panic", "exit", "lines"}, "ti-and-ti-i")
     ctx.cov["layers"]["ti-and-ti-i"]["input_kinds"] = kinds
     for t in texts[:4]:
         ctx.sample(t[:200])
 
     def search():
-        more, _ = robust.gen_texts(ctx, 8000)
+        more, _ = robust.gen_texts(ctx, 5000)
+        more += robust.gen_programs(ctx, 3000)
         f2, _ = robust.sweep(ctx, more, [[], ["-i"]], {"panic", "exit", "lines"}, "search")
         return f2
 
